@@ -12,7 +12,7 @@ class C15(PropBase):
     coq_imports = "Graph.MixedGraph Graph.DSep Graph.CondInd Corr.C15"
     budgets = {"quick": 320, "thorough": 3200}
     per_file = 40
-    rule = ("random ADMGs with 2..5 nodes (quick) / 2..6 (thorough), a bottleneck-above-a-fan family (5..6 nodes; the minimum separator lies outside both Markov blankets) and sparse 5..7-node graphs x max_conditions in {None,0,1,2,3} x policy in {default topological, len-lex}; "
+    rule = ("random ADMGs with 2..5 nodes (quick) / 2..6 (thorough), a bottleneck-above-a-fan family (5..6 nodes; the minimum separator lies outside both Markov blankets), layered series-parallel graphs (4..8 nodes, layer widths 1..3: separators far from both end nodes) and sparse 5..7-node graphs x max_conditions in {None,0,1,2,3} x policy in {default topological, len-lex}; "
             "non-trivial: at least one pair is separable only by a non-empty set or not at all; distinct = distinct (graph, limit, policy)")
     explanation = ("theorems characterise the enumeration for every vertex iteration order relative to the separation test; the check compares y0's "
                    "judgement set with the model pair by pair (existence, minimum size, canonical form, true separation by the model test)")
@@ -45,7 +45,23 @@ class C15(PropBase):
                     di = [[b, a] for a, b in di]
                 nodes = list(ids); rng.shuffle(nodes); rng.shuffle(di)
                 g = {"nodes": nodes, "dir": di, "bid": bi}
-            elif r < 0.35:
+            elif r < 0.32:
+                # layers of width 1..3 joined completely (series-parallel): narrow layers are small separators far from both end nodes,
+                # wide layers are large separators next to them
+                widths = [1] + [rng.randint(1, 3) for _ in range(rng.randint(2, 4))] + [1]
+                while sum(widths) > 8:
+                    widths.pop(rng.randrange(1, len(widths) - 1))
+                ids = list(range(sum(widths))); rng.shuffle(ids)
+                layers, at = [], 0
+                for w in widths:
+                    layers.append(ids[at:at + w]); at += w
+                di = [[a, b] for l1, l2 in zip(layers, layers[1:]) for a in l1 for b in l2 if rng.random() < 0.9 or len(l1) * len(l2) == 1]
+                bi = [[a, b] for l in layers for a, b in itt.combinations(l, 2) if rng.random() < 0.3]
+                if rng.random() < 0.3:
+                    di = [[b, a] for a, b in di]
+                nodes = list(ids); rng.shuffle(nodes); rng.shuffle(di)
+                g = {"nodes": nodes, "dir": di, "bid": bi}
+            elif r < 0.42:
                 g = GG.rand_admg(rng, 5, nmax + 1)   # larger and sparse: long chains
                 g["dir"] = [e for e in g["dir"] if rng.random() < 0.6]
                 g["bid"] = [e for e in g["bid"] if rng.random() < 0.4]
